@@ -321,3 +321,17 @@ for _c in ("C16", "C15", "C05"):
 for _c in ("C05", "C15", "C16"):
     CLAIMS[_c]["text"] += " A peephole rewrite never deletes an instruction whose VM arm can record a runtime error unless its replacement records the same one; table-predicate guards on a whole instruction are expanded per listed form (PEEP-SOUND)."
 CLAIMS["C07"]["text"] += " A boxed object may be handed back to the allocator directly only if none of its fields owns memory and the layout is that of its type (TAG-DISPATCH)."
+for _c in ("C01", "C21"):
+    CLAIMS[_c]["text"] += " Builtins that the generator recognises by qualified-name string are recognised only for prelude declarations (BUILTIN-IDENTITY)."
+
+# ---- fifth seeding round
+CLAIMS["C33"]["text"] += " A position handed to a lexer helper as the base of its error spans is a byte offset at every call site, and an error that carries a bare position carries the cursor converted to bytes (UNITS)."
+CLAIMS["C18"]["text"] += " Named arguments on a callee without a recorded parameter list are refused whenever any argument is named (ARG-MISUSE)."
+for _c in ("C19", "C01"):
+    CLAIMS[_c]["text"] += " Tuple results of the generator that hold several sets of one type are destructured slot by slot as named (TUPLE-SLOT)."
+CLAIMS["C20"]["text"] += " Compound assignment on any other operand type dispatches to the interface method of the corresponding binary operator (PIPE)."
+CLAIMS["C21"]["text"] += " A selective import is filtered by its own list, bound by its arm (IMPORT-KINDS)."
+for _c in ("C23", "C01"):
+    CLAIMS[_c]["text"] += " Try.branch is instantiated from the tried expression's type and Try.from_residual from the enclosing function's return type (TRY-SUBST)."
+CLAIMS["C24"]["text"] += " Float equality and ordering use the one total order in the register and the immediate form alike (FLOAT-ORDER, IMM-SIBLING)."
+CLAIMS["C26"]["text"] += " The must-use analysis of position parameters accounts for early returns (INDEX-MUST-USE)."
